@@ -283,10 +283,14 @@ impl VrlValueArithmetic for Value {
     fn eq_lossy(&self, rhs: &Self) -> bool {
         use Value::{Float, Integer};
 
-        match self {
-            Integer(lhv) => rhs.try_into_f64().is_ok_and(|rhv| *lhv as f64 == rhv),
+        match (self, rhs) {
+            // Two integers are compared exactly: above 2^53 distinct integers
+            // convert to the same float.
+            (Integer(lhv), Integer(rhv)) => lhv == rhv,
 
-            Float(lhv) => rhs.try_into_f64().is_ok_and(|rhv| lhv.into_inner() == rhv),
+            (Integer(lhv), _) => rhs.try_into_f64().is_ok_and(|rhv| *lhv as f64 == rhv),
+
+            (Float(lhv), _) => rhs.try_into_f64().is_ok_and(|rhv| lhv.into_inner() == rhv),
 
             _ => self == rhs,
         }
